@@ -10,12 +10,14 @@ PROP = {
         "ThreadLocalValue::{from_value, to_value}, current, swap, ctxt_id (real Mutex)} - the REAL thread-local context; impl Ctxt for Arc<ThreadLocalCtxt> and for dyn ErasedCtxt over it "
         "(ErasedFrame / ErasedCurrent); impl Props for Arc<P> / HashMap<K, V> (real text, map type substituted); std::sync::Arc::{new, clone, make_mut, drop} and mem::swap (real)",
     ],
-    "bounds": "quick: a chain of 2 nested frames and a sequence of 2 sibling frames; thorough: depth 2 with <= 2 siblings per level and a chain of 3; frame kind in {push, root, disabled, current}, "
+    "bounds": "quick: a chain of 2 nested frames and a sequence of 2 sibling frames; thorough: depth 2 with <= 2 siblings per level (a chain of 3 ran into the 3600 s cap: unregistered); frame kind in {push, root, disabled, current}, "
               "entry API in {enter guard (+ optional re-entry), call, with, in_fn}; <= 2 symbolic i32 properties per frame with distinct keys; "
               "two frame-wrapped futures with <= 2 yields each polled in any order (6 steps); a second context instance observed throughout; hk_tlctxt (real ThreadLocalCtxt, one-step): ONE frame (push or root, <= 2 own i64 properties) from a pre-state of context A on thread 0 that is 'never touched' (no entry in ACTIVE), 'observed only' (entry without a map) or 'inside an entered root frame with <= 2 properties'; keys from the pool {a, bb, ccc}; another context instance B with its own entry on thread 0, the same context A with its own entry (or untouched) on harness thread 1, ThreadLocalCtxt::shared() observed; SHAPES (which keys, how many, pre-state kind, observe-before-enter, iteration order of the map: forwards / reverse) are concrete per harness (8 quick + 3 thorough step shapes, 2 re-enter, 2 cross-thread, 2+2 wrapper shapes), all VALUES symbolic; context ids as handed out by ThreadLocalCtxt::new() (1, 2) and 0",
     "outside": "UPDATE hk_tlctxt: the real ThreadLocalCtxt IS now decided one frame step at a time (see bounds); still outside: compositions of more than one frame step on it (the generic frame discipline "
                "over env::ArrCtxt composes with the step), more than 4 distinct keys per frame / 4 context ids per thread (capacity of the map stand-in: exceeding it fails the harness), symbolic key sets and "
                "symbolic iteration order (concrete shapes only), real OS threads and TLS teardown, hashing itself (std HashMap trusted as a finite map); "
+               "thorough-tier harnesses that did not fit in the measured thorough run and are unregistered: c03_x_tl_root_two_on_observed, c03_x_tl_via_erased_root "
+               "(out of memory after 2300 s) and c03_x_nested_frames_depth3 on the harness context (3600 s cap); "
                "NOT decided on the real context: the pre-states in which the entering thread has NO entry yet for the context id (first touch by enter / "
                "open_push / open_root), a push onto an observed-but-empty slot, re-entry of a root frame on an untouched thread and the push step through "
                "&dyn ErasedCtxt - harnesses c03_x_tl_{root_first_touch, push_on_untouched, push_on_observed, cross_thread_push_to_untouched, "
